@@ -108,25 +108,33 @@ def _register_buildable_defaults_aware_traversers(cls: Type[Buildable]):
   )
 
 
-def _first_paths_in_canonical_order(root: Any) -> List[daglish.Path]:
-  """Returns the path under which each node of `root` is first reached.
+def _first_paths_in_canonical_order(
+    root: Any,
+) -> List[Tuple[daglish.Path, daglish.Path]]:
+  """Returns `(path, first path)` for each occurrence of a node of `root`.
 
   Shared (memoizable) nodes are visited once, leaves once per occurrence.
+  For the first occurrence of a node both paths are the same; a further
+  occurrence of a shared node is reported with the path under which that node
+  was first reached (and is not descended into), so that two DAGs only get the
+  same result if the same positions refer to the same node.
   Children are visited in sorted path-element order rather than in flatten
   order, so that the path recorded for a shared node does not depend on dict
   insertion order or on the order in which **kwargs were set.
   """
   paths = []
-  seen = {}  # id -> object (keeps the object alive while its id is stored).
+  # id -> (object, first path); keeps the object alive while its id is stored.
+  seen = {}
 
   def visit(value, path):
     # Internables are not memoized: they might be equal in value but have
     # different object ids.
     if daglish.is_memoizable(value) and not daglish.is_internable(value):
       if id(value) in seen:
+        paths.append((path, seen[id(value)][1]))
         return
-      seen[id(value)] = value
-    paths.append(path)
+      seen[id(value)] = (value, path)
+    paths.append((path, path))
     traverser = _defaults_aware_traverser_registry.find_node_traverser(
         type(value)
     )
